@@ -175,7 +175,7 @@ Ltac proc_skip n i s hs HB O W :=
     [ apply mon1_run_skip with (Hi := Hi_proc s i); [exact HB | unfold Hi_proc; nomention]
     | exists hs; split; [reflexivity |];
       match goal with |- only (owner_proc _ ?s' _) ?hh = true =>
-         replace (owner_proc n s' i) with (owner_proc n s i); [exact O|] end;
+         first [exact O | replace (owner_proc n s' i) with (owner_proc n s i); [exact O|]] end;
       destruct W; unfold owner_proc, setb; proj; bool_lia ] ].
 
 Lemma run_map_acc_nil l o t (f : nat -> loc) w a n :
